@@ -25,39 +25,72 @@ DEFAULT_RULE = ("events = public calls executed on the real containers and valid
                 "distinct_nontrivial counts distinct (kind, operation, argument tuple) combinations executed, argument tuples "
                 "of random histories being reduced to (operation, sign of index, comparator)")
 
+
+# ---- bounded model-checking configurations (spec, cfg, what TLC checks) --------------------------------
+def _mc(spec, cfg, checks, **kw):
+    d = dict(spec=spec, cfg=cfg + ".cfg", checks=checks)
+    d.update(kw)
+    return d
+
+MC_RBT = [_mc("MCRBT", "MCRBT", "red-black model, 7 keys: RBInv, Sorted, NavOK (Floor/Ceiling/Get for every probe), MinMaxOK, ShapeInv; Refines AbsMap, WorkBound", cfg_thorough="MCRBT_thorough.cfg"),
+          _mc("MCRBT", "MCRBT_vals", "red-black model, 5 keys x 2 values (replace on equal)")]
+MC_AVL = [_mc("MCAVL", "MCAVL", "AVL model, 7 keys: AVLInv, Sorted, NavOK, MinMaxOK, ShapeInv; Refines AbsMap, WorkBound", cfg_thorough="MCAVL_thorough.cfg"),
+          _mc("MCAVL", "MCAVL_vals", "AVL model, 5 keys x 2 values")]
+MC_BT = [_mc("MCBT", "MCBT3", "B-tree model order 3, 8 keys: BTInv, Sorted, GetOK, MinMaxOK, ShapeInv; Refines AbsMap, WorkBound", cfg_thorough="MCBT3_thorough.cfg"),
+         _mc("MCBT", "MCBT4", "B-tree model order 4, 8 keys"), _mc("MCBT", "MCBT5", "B-tree model order 5, 8 keys"),
+         _mc("MCBT", "MCBT6", "B-tree model order 6, 8 keys"), _mc("MCBT", "MCBT3_vals", "B-tree model order 3, 5 keys x 2 values")]
+MC_LH = [_mc("MCLinkedHash", "MCLinkedHash", "linked hash map/set model, 4 keys x 2 values: InStep (table and order list agree); Refines insertion-ordered AbsMap / AbsSet")]
+MC_BIDI = [_mc("MCBidiMap", "MCBidiMap", "bidi map model 3 x 3: MutualInverse, SizesAgree; Refines AbsMap!BidiPutAllowed")]
+MC_HIST = [_mc("MCMapHist", "MCMapHist_" + k, "abstract map (%s) against the history reading of C01: GetIsHistory, SizeIsLive, EachOnce, RemoveAbsent" % k)
+           for k in ("hash", "sorted", "half", "linked")]
+MC_SEQ = [_mc("MCDLL", "MCDLL", "doubly linked list cell model, length <= 4: NoPanic, WF (size, backward chain), GetAgrees; Refines AbsSeq", cfg_thorough="MCDLL_thorough.cfg"),
+          _mc("MCArrayList", "MCArrayList", "array list (elements, cap) model, length <= 5: CapInv; Refines AbsSeq")]
+MC_RING = [_mc("MCRing", "MCRing%d" % c, "ring model capacity %d: IndexInv, FullIffSizeCap, SizeAgrees; Refines bounded FIFO" % c) for c in (1, 2, 3, 4)]
+MC_HEAP = [_mc("MCHeap", "MCHeap_" + c, "heap array model, 6 items, comparator %s: HeapOrdered; Refines AbsHeap (Pop is a minimum, bag exact)" % c)
+           for c in ("prio", "maxprio", "prioid")]
+MC_ITER = [_mc("RBTIter", "MCRBTIter", "red-black iterator over all 6-key trees: CursorInv (refines AbsCursor incl. NextTo/PrevTo)"),
+           _mc("BTIter", "MCBTIter3", "B-tree iterator, order 3, 7 keys: CursorInv"), _mc("BTIter", "MCBTIter4", "B-tree iterator, order 4, 7 keys: CursorInv"),
+           _mc("IdxIter", "MCIdxIter", "index iterator over all sequences of length <= 4: CursorInv with NextTo/PrevTo")]
+MC_JSON = [_mc("MCJSON", "MCJSON_" + d, "abstract loads, discipline %s: Sound, NoSurvivor, RoundTrip" % d)
+           for d in ("seq", "ring", "stack", "heap", "unordered", "linkedset", "sortedset", "unorderedmap", "sortedmap", "linkedmap", "unorderedbidi", "sortedbidi")]
+MC_ALG = [_mc("MCAlg", "MCAlg", "set algebra loops for all 256 pairs of subsets of a 4-element universe + aliased operands: Exact, OperandsUnchanged")]
+MC_ENUM = [_mc("MCEnum", "MCEnum", "laws of AbsEnum over all sequences of length <= 4 and every family member")]
+MC_ALIAS = [_mc("MCAlias", "MCAlias", "aliasing machine: NoSharing, ScribbleLeavesContainer, MutateLeavesSnapshots")]
+MC_READERS = [_mc("MCReaders", "MCReaders", "ReadersPure, ResultIsSequential over all interleavings of 3 readers")]
+
 PLAN = {
     "C03": dict(level="model_checking", design="6 C03",
                 traces=[dict(job="seq", spec="TraceSeq")],
-                mc=[]),
+                mc=MC_SEQ),
     "C01": dict(level="model_checking", design="6 C01",
                 traces=[dict(job="map", spec="TraceMap")],
-                mc=[]),
+                mc=MC_HIST + MC_RBT + MC_AVL + MC_BT + MC_LH + MC_BIDI),
     "C02": dict(level="model_checking", design="6 C02",
                 traces=[dict(job="map", spec="TraceMap", kinds=["treemap", "redblacktree", "avltree", "btree", "treebidimap"]),
                         dict(job="set", spec="TraceSet", kinds=["treeset"])],
-                mc=[]),
+                mc=MC_RBT[:1] + MC_AVL[:1] + MC_BT[:2]),
     "C07": dict(level="model_checking", design="6 C07",
                 traces=[dict(job="map", spec="TraceMap", kinds=["treemap", "redblacktree", "avltree", "btree", "treebidimap"])],
-                mc=[]),
+                mc=MC_RBT[:1] + MC_AVL[:1] + MC_BT[:4]),
     "C10": dict(level="model_checking", design="6 C10",
                 traces=[dict(job="map", spec="TraceMap", kinds=["hashbidimap", "treebidimap"])],
-                mc=[]),
+                mc=MC_BIDI),
     "C04": dict(level="model_checking", design="6 C04",
                 traces=[dict(job="set", spec="TraceSet")],
-                mc=[]),
+                mc=MC_LH),
     "C06": dict(level="model_checking", design="6 C06",
                 traces=[dict(job="heap", spec="TraceHeap")],
-                mc=[]),
+                mc=MC_HEAP),
     "C08": dict(level="model_checking", design="6 C08",
                 traces=[dict(job="cur", spec="TraceCursor")],
-                mc=[]),
+                mc=MC_ITER),
     "C09": dict(level="model_checking", design="6 C09",
                 traces=[dict(job="map", spec="TraceMap", kinds=["linkedhashmap"]),
                         dict(job="set", spec="TraceSet", kinds=["linkedhashset"])],
-                mc=[]),
+                mc=MC_LH),
     "C11": dict(level="model_checking", design="6 C11",
                 traces=[dict(job="json", spec="TraceJSON", together=True)],
-                mc=[], trusted=["encoding/json (validity, top-level kind, json.Marshal comparison)"]),
+                mc=MC_JSON, trusted=["encoding/json (validity, top-level kind, json.Marshal comparison)"]),
     "C12": dict(level="model_checking", design="6 C12",
                 traces=[dict(job="json", spec="TraceJSON", together=True),
                         dict(job="jf", spec="TraceSeq", prop="C03", kinds=["arraylist", "singlylinkedlist", "doublylinkedlist"], together=True),
@@ -65,37 +98,37 @@ PLAN = {
                         dict(job="jf", spec="TraceHeap", prop="C06", kinds=["binaryheap", "priorityqueue"], together=True),
                         dict(job="jf", spec="TraceSet", prop="C04", kinds=["hashset", "treeset", "linkedhashset"], together=True),
                         dict(job="jf", spec="TraceMap", prop="C01", kinds=["hashmap", "treemap", "linkedhashmap", "hashbidimap", "treebidimap", "redblacktree", "avltree", "btree"], together=True)],
-                mc=[], trusted=["encoding/json as reference decoder of the input texts (denotation)"]),
+                mc=MC_JSON, trusted=["encoding/json as reference decoder of the input texts (denotation)"]),
     "C13": dict(level="model_checking", design="6 C13",
                 traces=[dict(job="alg", spec="TraceAlg")],
-                mc=[]),
+                mc=MC_ALG),
     "C14": dict(level="model_checking", design="6 C14",
                 traces=[dict(job="enum", spec="TraceEnum")],
-                mc=[]),
+                mc=MC_ENUM),
     "C15": dict(level="model_checking", design="6 C15",
                 traces=[dict(job="seq", spec="TraceSeq"), dict(job="que", spec="TraceQue"), dict(job="heap", spec="TraceHeap"),
                         dict(job="set", spec="TraceSet"), dict(job="map", spec="TraceMap"),
                         dict(job="clr", spec="TraceClear", together=True)],
-                mc=[]),
+                mc=MC_RING[1:3] + MC_SEQ[:1] + MC_BT[:1] + MC_LH),
     "C16": dict(level="model_checking", design="6 C16",
                 traces=[dict(job="alias", spec="TraceAlias", together=True)],
-                mc=[]),
+                mc=MC_ALIAS),
     "C17": dict(level="exploration", design="6 C17",
                 traces=[dict(job="seq", spec="TraceSeq"), dict(job="que", spec="TraceQue"), dict(job="heap", spec="TraceHeap"),
                         dict(job="set", spec="TraceSet"), dict(job="map", spec="TraceMap"), dict(job="alg", spec="TraceAlg"),
                         dict(job="cur", spec="TraceCursor"), dict(job="enum", spec="TraceEnum"),
                         dict(job="json", spec="TraceJSON", together=True), dict(job="alias", spec="TraceAlias", together=True)],
-                mc=[], trusted=["fd-level capture of stdout/stderr (dup2), recover(), watchdog timer in the harness"]),
+                mc=MC_SEQ[:1], trusted=["fd-level capture of stdout/stderr (dup2), recover(), watchdog timer in the harness"]),
     "C18": dict(level="exploration", design="6 C18", race=True,
                 traces=[dict(job="rd", spec="TraceReaders", race=True),
                         dict(job="seq", spec="TraceSeq"), dict(job="que", spec="TraceQue"), dict(job="heap", spec="TraceHeap"),
                         dict(job="set", spec="TraceSet"), dict(job="map", spec="TraceMap"), dict(job="alg", spec="TraceAlg"),
                         dict(job="cur", spec="TraceCursor"), dict(job="enum", spec="TraceEnum"), dict(job="alias", spec="TraceAlias", together=True)],
-                mc=[dict(spec="MCReaders", cfg="MCReaders.cfg", checks="ReadersPure, ResultIsSequential over all interleavings of 3 readers")],
+                mc=MC_READERS,
                 trusted=["Go race detector (happens-before based)", "deep reflection fingerprint of the container"]),
     "C05": dict(level="model_checking", design="6 C05",
                 traces=[dict(job="que", spec="TraceQue")],
-                mc=[]),
+                mc=MC_RING),
 }
 
 
